@@ -112,7 +112,7 @@ func checkC19(c *Check) {
 			n := 0
 			for _, b := range rm.Blocks {
 				ret, ok := b.Instrs[len(b.Instrs)-1].(*ssa.Return)
-				if !ok || !isNilConst(ret.Results[len(ret.Results)-1]) {
+				if !ok || !isNilConst(retVal(ret, len(ret.Results)-1)) {
 					continue
 				}
 				n++
@@ -287,6 +287,33 @@ func checkC19(c *Check) {
 	checkFraming(c)
 	// the parameters acted upon are those of this request (no field inherited from the previous message)
 	checkFreshDecode(c, "7/request-is-fresh")
+
+	// ---------- 8: what is delivered does not alias the socket's buffers ----------
+	// the credentials handed to the caller are the copy made by the parser of the standard library, not a pointer
+	// into the control buffer (which the next receive overwrites)
+	nCred := 0
+	for _, fn := range p.PkgFuncs("pkg/unixsocket") {
+		for _, b := range fn.Blocks {
+			for _, in := range b.Instrs {
+				st, ok := in.(*ssa.Store)
+				if !ok {
+					continue
+				}
+				fa, ok := st.Addr.(*ssa.FieldAddr)
+				if !ok || fieldName(fa.X.Type(), fa.Field) != "Cred" || !strings.HasSuffix(derefType(fa.X.Type()).String(), "unixsocket.Msg") {
+					continue
+				}
+				if isNilConst(st.Val) {
+					continue
+				}
+				nCred++
+				or := valueOrigins(st.Val)
+				okO := len(or) == 1 && or[0] == "syscall.ParseUnixCredentials"
+				c.Cond(okO, "8/no-aliasing", "pkg/unixsocket."+fn.Name()+":Cred", p.Pos(st.Pos()), "the credential is the parser's own copy", "the credential delivered with a message is "+describe(st.Val)+" (origin "+strings.Join(or, ",")+"), not the copy returned by syscall.ParseUnixCredentials: it may point into the receive buffer and change under the caller with the next message")
+			}
+		}
+	}
+	c.Expect("8/no-aliasing", 1)
 }
 
 // checkControlCloser: visits every control message, closes every SCM_RIGHTS descriptor, no early exit.
